@@ -1,0 +1,11 @@
+//! Verification hooks, compiled only with `--cfg folo_verif` (set by the verification harness in
+//! `/verif/harness/.cargo/config.toml`). With the guard off nothing in this module, and none of the
+//! `#[cfg(folo_verif)]` items it relies on, is compiled.
+//!
+//! Hook H4: build the Linux platform (and a `SystemHardware` on top of it) over a caller-supplied
+//! in-memory filesystem and a caller-supplied thread affinity "kernel" that sees raw mask bytes,
+//! and reach the affinity mask type for checking its laws.
+
+pub use crate::pal::verif::{
+    VerifAffinityKernel, VerifCpuMask, VerifFilesystem, VerifLinuxPlatform, VerifProcessor,
+};
